@@ -2,6 +2,7 @@
   C03 — Inference is sound: the cast data is exactly of the inferred type.
 -/
 import VProofs.Lemmas.Pure
+import VProofs.Obligations.PandasLands
 namespace V.C03
 open V
 
@@ -25,5 +26,47 @@ prefix by applying it to the shorter walk) -/
 theorem C03_lands_step (ts : TS T D) {I : D → Prop} (wf : ts.WF I) (n : T) (r : PRel T D) (x : D)
     (hr : r ∈ ts.succ n) (hI : I x) (hc : ts.contains n x = true) (hg : r.guard x = true) :
     ts.contains r.dst (r.xform x) = true := wf.lands n r x hr hI hc hg
+
+end V.C03
+
+namespace V.C03
+open V V.Gen V.Pd
+
+/-- the named hypotheses under which the pandas relations land (each validated by α on every
+generated column): a complex cell is missing iff its payload is NaN; a `str` element is never
+missing; `pd.to_datetime` on the whole column finds a timestamp (library hypothesis) -/
+structure LandsHyp (o : ColOracle) (c : Column) : Prop where
+  pay : ∀ x ∈ c.cells, PayWF x
+  strNotNull : StrNotNull c
+  dt : DtLands o c
+
+/-- **C03_lands_pandas** (L3): for every one of the 14 inference relations of the generated table,
+on every column of its source type: if the relation's test accepts and its transformer returns, the
+result is contained in the target type. -/
+theorem C03_lands_pandas (o : ColOracle) (src dst : Ty) (g : Column → R Bool) (t : Column → R Column)
+    (hg : Pd.guard o src dst = some g) (ht : Pd.xform o src dst = some t)
+    (c c' : Column) (hyp : LandsHyp o c) (hsrc : containsB src c = true)
+    (hacc : g c = .ok true) (hx : t c = .ok c') : containsB dst c' = true := by
+  unfold Pd.guard at hg
+  unfold Pd.xform at ht
+  split at hg <;> (try cases hg) <;> simp only at ht <;> cases ht
+  · exact lands_object_boolean c c' hsrc hx
+  · exact lands_string_boolean c c' hsrc hacc hx
+  · exact lands_string_complex c c' hsrc hx
+  · exact lands_string_datetime o c c' hyp.dt hx
+  · exact lands_string_float c c' hacc hx
+  · exact lands_complex_float c c' hyp.pay hsrc hacc hx
+  · exact lands_float_integer c c' hsrc hx
+  · exact lands_datetime_date c c' hsrc hacc hx
+  · exact lands_string_geometry c c' hsrc hyp.strNotNull hx
+  · exact lands_string_ip c c' hsrc hyp.strNotNull hx
+  · exact lands_string_path c c' hsrc hyp.strNotNull hacc hx
+  · exact lands_string_url c c' hsrc hyp.strNotNull hx
+  · exact lands_string_uuid c c' hsrc hyp.strNotNull hx
+  · exact lands_string_email c c' hsrc hyp.strNotNull hx
+
+/-! non-vacuity: the property's own example — '1.0' → 1.0 → 1 — and 1.5 stays a Float -/
+example : floatToInteger ⟨.fam .float, [Cell.ofFloat (.fin 1 0)], ["0"], "None"⟩
+    = .ok ⟨.fam .int, [Cell.ofInt 1], ["0"], "None"⟩ := by rfl
 
 end V.C03
